@@ -195,13 +195,9 @@ inline Number parseNumber(const char* s) {
     }
 
     while (isdigit(*s)) {
-      exponent = exponent * 10 + (*s - '0');
-      if (exponent + exponent_offset > traits::exponent_max) {
-        if (negative_exponent)
-          return Number(is_negative ? -0.0f : 0.0f);
-        else
-          return Number(is_negative ? -traits::inf() : traits::inf());
-      }
+      // saturate to avoid an integer overflow; the range is checked below
+      if (exponent < 100000)
+        exponent = exponent * 10 + (*s - '0');
       s++;
     }
     if (negative_exponent)
